@@ -73,7 +73,22 @@ def run(res):
             continue
         # every state has a label set OF ITS OWN: the idiom the library itself uses, labels(s).add(x), on a second
         # instance and on a clone of it, must label s and nobody else
-        for what, K2 in (('constructed structure', mk()), ('clone', mk().clone())):
+        # the same thing when the caller's L uses ONE set object for several states (aliasing between arguments), or
+        # hands in tuples / frozensets / lists as label collections, or tuples for S, S0 and R
+        shared = {}
+        L_alias = {k: shared.setdefault(frozenset(v), set(v)) for k, v in L.items()}
+        kinds = [tuple, frozenset, list, set]
+        L_kinds = {k: kinds[i % 4](v) for i, (k, v) in enumerate(sorted(L.items()))}
+        variants = [('constructed structure', mk()), ('clone', mk().clone()),
+                    ('structure constructed from an L whose equal label sets are one shared object',
+                     Kripke(S=list(S), S0=list(S0), R=list(rs), L=L_alias)),
+                    ('structure constructed from tuples / frozensets (S, S0, R as tuples, label collections of mixed types)',
+                     Kripke(S=tuple(S), S0=frozenset(S0), R=tuple(rs), L=L_kinds))]
+        for what, K2 in variants[2:]:
+            if canon(K2) != canon(K):
+                res.violation('a %s differs from the one built from lists and fresh sets: %s vs %s' % (what, canon(K2), canon(K)),
+                              {'S': S, 'S0': S0, 'R': rs, 'L': L})
+        for what, K2 in variants:
             for s in nodes:
                 K2.labels(s).add('zz_%s' % s)
             wrong = [s for s in nodes if set(K2.labels(s)) != set(L.get(s, [])) | {'zz_%s' % s}]
@@ -137,6 +152,15 @@ def run(res):
                 return canon(Sub[0])
             impl.append(attempt(do_sub))
             descr.append(('substructure', S, S0, rs, L, V))
+            # V in the other set types (the docstring says `:type V: set`; lists / tuples raise TypeError at `V & ...`)
+            class MySet(set):
+                pass
+            base = impl[-1]
+            for kind, mkc in (('frozenset', frozenset), ('set subclass', MySet)):
+                alt = attempt(lambda: canon(K.get_substructure(mkc(V))))
+                if alt != base:
+                    res.violation('get_substructure(V) with V given as a %s gives %s, as a set %s' % (kind, alt, base),
+                                  {'S': S, 'S0': S0, 'R': rs, 'L': L, 'V': list(V), 'container': kind})
             if Sub[0] is not None:
                 if any(id(v) in own for v in Sub[0]._labels.values()):
                     alias_viol.append(('substructure', S, S0, rs, L, V))
